@@ -360,6 +360,7 @@ template<class GraphImpl>
 void DAGraphImpl<GraphImpl>::topologyHasChanged_() const
 {
   isValid_ = false;
+  isRooted_ = false;
 }
 
 
